@@ -218,9 +218,24 @@ ArgBest(vals, min) ==
   IN IF ok = <<>> THEN Null
      ELSE IF Len(args) = 1 THEN args[1] ELSE <<"any", args>>
 
-Agg(op, vals) ==
+(* dev: the set of named *engine deviations* under which the bag is         *)
+(* evaluated.  The documented semantics is dev = {}.  Deviations exist only  *)
+(* to classify a disagreement precisely ("explained by exactly this          *)
+(* deviation"): they are never used to accept anything silently.             *)
+Deviations == {"count_empty_zero", "list_empty_brackets", "set_empty_brackets",
+               "list_keeps_nulls", "set_keeps_nulls", "zero_key_one_row",
+               "argbest_single_null_value"}
+
+Agg(op, vals, dev) ==
   LET nn == NonNull(vals) IN
-  CASE op \in {"ArgMin", "ArgMax"} -> ArgBest(vals, op = "ArgMin")
+  CASE op \in {"ArgMin", "ArgMax"} /\ "argbest_single_null_value" \in dev
+         /\ Len(vals) = 1 /\ IsNull(Field(vals[1], "value")) -> Field(vals[1], "arg")
+    [] op \in {"ArgMin", "ArgMax"} -> ArgBest(vals, op = "ArgMin")
+    [] op = "List" /\ "list_keeps_nulls" \in dev /\ vals # <<>> -> <<"m", SortVals(vals)>>
+    [] op = "Set" /\ "set_keeps_nulls" \in dev /\ vals # <<>> -> <<"m", SortVals(Dedup(vals))>>
+    [] op = "Count" /\ "count_empty_zero" \in dev /\ nn = <<>> -> Num(0)
+    [] op = "List" /\ "list_empty_brackets" \in dev /\ nn = <<>> -> <<"m", <<>> >>
+    [] op = "Set" /\ "set_empty_brackets" \in dev /\ nn = <<>> -> <<"m", <<>> >>
     [] nn = <<>> -> Null
     [] op = "Sum" -> Num(SumInts(nn))
     [] op = "Min" -> SortVals(nn)[1]
